@@ -2501,4 +2501,131 @@ theorem lookup_latest_wins (older later : List Op) (t t' : Tablet) (tok : Int)
 example : survive (tr 4 6 [1]) [.insert (tr 7 8 [2]), .maint [2] [(1, nd 1)] []] = some (tr 4 6 [1]) ∧
     survive (tr 6 9 [2]) [.insert (tr 4 6 [1])] = none := by decide
 
+/-! ### one `update_tablets` call with a whole batch -/
+
+section Batch
+open ScyllaVerif.TabletsRefresh
+
+/-- the single-tablet learn a batch item amounts to -/
+def learnOf (it : RawItem) : COp := .learn it.1.1 it.1.2 it.2.1 it.2.2.1 it.2.2.2
+
+/-- **A batch is the sequence of its single learns, in order** (`update_tablets` loops over the batch; the
+translator over `known_nodes` is the same for every item because learning does not touch `known_nodes`): nothing
+of the batch is skipped or reordered, so a later tablet of the batch wins over an earlier one it overlaps —
+the same range twice, `A, B, A`, several tables interleaved. -/
+theorem learn_batch_eq_foldl (cs : CState) (batch : List RawItem) :
+    (learnBatch cs batch).1 = batch.foldl (fun cs it => (learn cs it.1 it.2.1 it.2.2.1 it.2.2.2).1) cs := by
+  obtain ⟨known, info, gen⟩ := cs
+  have key : ∀ (batch : List RawItem) (inf : Info) (ok : Bool),
+      (⟨known, (batch.foldl (learnItem (translator known)) (inf, ok)).1, gen⟩ : CState)
+        = batch.foldl (fun cs it => (learn cs it.1 it.2.1 it.2.2.1 it.2.2.2).1) ⟨known, inf, gen⟩ := by
+    intro batch
+    induction batch with
+    | nil => intro inf ok; rfl
+    | cons it batch ih =>
+      intro inf ok
+      simp only [List.foldl_cons]
+      have e1 : learnItem (translator known) (inf, ok) it =
+          ((inf.addTablet it.1 (Tablet.fromRaw it.2.1 it.2.2.1 it.2.2.2 (translator known))).1,
+            ok && (inf.addTablet it.1 (Tablet.fromRaw it.2.1 it.2.2.1 it.2.2.2 (translator known))).2) := rfl
+      rw [e1, ih]
+      rfl
+  exact key batch info true
+
+inductive BOp where
+  /-- one `update_tablets` call -/
+  | batch (items : List RawItem)
+  | refresh (peers : List Peer) (keyspaces : List (String × Bool × List String))
+
+def bstep (cs : CState) : BOp → CState
+  | .batch items => (learnBatch cs items).1
+  | .refresh peers kss => refresh cs peers kss
+
+def brun (ops : List BOp) : CState := ops.foldl bstep CState.init
+
+def flatten : List BOp → List COp
+  | [] => []
+  | .batch items :: rest => items.map learnOf ++ flatten rest
+  | .refresh peers kss :: rest => .refresh peers kss :: flatten rest
+
+/-- histories with batches are histories of single learns: every theorem about `crun` (`stateOk_run`,
+`refresh_lookups_current`, `cluster_lookup_refines`, …) speaks about them -/
+theorem brun_eq_crun (ops : List BOp) : brun ops = crun (flatten ops) := by
+  have key : ∀ (ops : List BOp) (cs : CState), ops.foldl bstep cs = (flatten ops).foldl cstep cs := by
+    intro ops
+    induction ops with
+    | nil => intro cs; rfl
+    | cons op ops ih =>
+      intro cs
+      cases op with
+      | batch items =>
+        simp only [List.foldl_cons, flatten, List.foldl_append, List.foldl_map, bstep]
+        rw [ih, learn_batch_eq_foldl]
+        rfl
+      | refresh peers kss =>
+        simp only [List.foldl_cons, flatten, bstep]
+        rw [ih]
+        rfl
+  exact key ops CState.init
+
+private theorem flatten_learn_valid (ops : List BOp)
+    (hv1 : ∀ items, BOp.batch items ∈ ops → ∀ it ∈ items, it.2.1 ≤ it.2.2.1) :
+    ∀ ks tb f l raw, COp.learn ks tb f l raw ∈ flatten ops → f ≤ l := by
+  induction ops with
+  | nil => intro ks tb f l raw hm; simp [flatten] at hm
+  | cons op ops ih =>
+    have ih' := ih (fun items hmem => hv1 items (List.mem_cons_of_mem _ hmem))
+    intro ks tb f l raw hm
+    cases op with
+    | batch items =>
+      simp only [flatten, List.mem_append, List.mem_map] at hm
+      rcases hm with ⟨it, hit, e⟩ | hm
+      · simp only [learnOf, COp.learn.injEq] at e
+        obtain ⟨_, _, rfl, rfl, _⟩ := e
+        exact hv1 items List.mem_cons_self it hit
+      · exact ih' ks tb f l raw hm
+    | refresh peers kss =>
+      simp only [flatten, List.mem_cons, reduceCtorEq, false_or] at hm
+      exact ih' ks tb f l raw hm
+
+private theorem flatten_refresh_valid (ops : List BOp)
+    (hv2 : ∀ peers kss, BOp.refresh peers kss ∈ ops → (kss.map (·.1)).Nodup) :
+    ∀ peers kss, COp.refresh peers kss ∈ flatten ops → (kss.map (·.1)).Nodup := by
+  induction ops with
+  | nil => intro peers kss hm; simp [flatten] at hm
+  | cons op ops ih =>
+    have ih' := ih (fun p k hmem => hv2 p k (List.mem_cons_of_mem _ hmem))
+    intro peers kss hm
+    cases op with
+    | batch items =>
+      simp only [flatten, List.mem_append, List.mem_map] at hm
+      rcases hm with ⟨it, _, e⟩ | hm
+      · simp [learnOf] at e
+      · exact ih' peers kss hm
+    | refresh peers' kss' =>
+      simp only [flatten, List.mem_cons, COp.refresh.injEq] at hm
+      rcases hm with ⟨rfl, rfl⟩ | hm
+      · exact hv2 peers kss List.mem_cons_self
+      · exact ih' peers kss hm
+
+/-- latest wins, never stale — after every history of batches and refreshes, for every table -/
+theorem batch_lookup_refines (ops : List BOp)
+    (hv1 : ∀ items, BOp.batch items ∈ ops → ∀ it ∈ items, it.2.1 ≤ it.2.2.1)
+    (hv2 : ∀ peers kss, BOp.refresh peers kss ∈ ops → (kss.map (·.1)).Nodup)
+    (spec : String × String) (tbl : Table) (h : alGet spec (brun ops).info.tables = some tbl) (tok : Int) :
+    tabletForToken tbl.tablets tok = lookupSpec (proj spec (ctrace (flatten ops) CState.init)) tok ∧ Inv tbl.tablets := by
+  rw [brun_eq_crun] at h
+  exact cluster_lookup_refines (flatten ops) (flatten_learn_valid ops hv1) (flatten_refresh_valid ops hv2) spec tbl h tok
+
+-- non-vacuity: the same range twice in one batch (the later replica list wins), and A, B, A in one batch
+private def bcs : CState := brun [.refresh [pr 1 "dc1" 0, pr 2 "dc1" 1, pr 3 "dc2" 2] [("k0", true, ["t0"])]]
+private def sig (cs : CState) := cs.info.tables.map fun e =>
+  e.2.tablets.map fun t => (t.first, t.last, t.replicas.all.map fun p => (p.1.hostId, p.2))
+example : sig (learnBatch bcs [(("k0", "t0"), 0, 5, [(1, 0)]), (("k0", "t0"), 0, 5, [(2, 1)])]).1 = [[(0, 5, [(2, 1)])]] := by
+  decide
+example : sig (learnBatch bcs [(("k0", "t0"), 0, 5, [(1, 0)]), (("k0", "t0"), 3, 8, [(2, 0)]), (("k0", "t0"), 0, 5, [(1, 0)])]).1
+    = [[(0, 5, [(1, 0)])]] := by decide
+
+end Batch
+
 end ScyllaVerif.Props.C15
